@@ -18,6 +18,8 @@ define_language! {
         F2(Slot, Slot) = "f2",
         G3(Slot, Slot, Slot) = "g3",
         G4(Slot, Slot, Slot, Slot) = "g4",
+        G5(Slot, Slot, Slot, Slot, Slot) = "g5",
+        G6(Slot, Slot, Slot, Slot, Slot, Slot) = "g6",
         C0() = "c0",
         C1() = "c1",
         W(AppliedId) = "w",
@@ -157,6 +159,8 @@ impl LangId {
                     op("g3", &[SlotF, SlotF, SlotF]),
                     op("c1", &[]),
                     op("g4", &[SlotF, SlotF, SlotF, SlotF]),
+                    op("g5", &[SlotF, SlotF, SlotF, SlotF, SlotF]),
+                    op("g6", &[SlotF, SlotF, SlotF, SlotF, SlotF, SlotF]),
                     op("", &[PayU32]),
                     op("w", &[Kid(0)]),
                     op("p", &[Kid(0), Kid(0)]),
